@@ -15,6 +15,14 @@ struct Spec {
     win: Option<(u64, &'static str)>, // (count size, stream name)
     seq_steps: Option<u64>,
     join_win: Option<u64>,
+    // pieces of a stream's SOURCE clause (an edit confined to them changes no operator)
+    /// merge of two filtered branches: threshold of the first branch
+    merge_thr: Option<i64>,
+    /// sequence: `all` on the first element, and a filter on the second step
+    seq_all: bool,
+    seq_b_thr: Option<i64>,
+    /// join condition on `v` instead of `k`
+    join_on_v: bool,
 }
 
 fn render(s: &Spec) -> (String, BTreeMap<String, String>) {
@@ -29,15 +37,21 @@ fn render(s: &Spec) -> (String, BTreeMap<String, String>) {
     if let Some(k) = s.seq_steps {
         let third = if k == 3 { "  -> C as c\n" } else { "" };
         let emit = if k == 3 { "  .emit(sa: a.seq, sb: b.seq, sc: c.seq)\n" } else { "  .emit(sa: a.seq, sb: b.seq)\n" };
-        parts.insert("Q".into(), format!("stream Q = A as a\n  -> B as b\n{}{}", third, emit));
+        let first = if s.seq_all { "all A as a" } else { "A as a" };
+        let bstep = match s.seq_b_thr { Some(t) => format!("  -> B where v > {} as b\n", t), None => "  -> B as b\n".to_string() };
+        parts.insert("Q".into(), format!("stream Q = {}\n{}{}{}", first, bstep, third, emit));
     }
     if let Some(w) = s.join_win {
         parts.insert("JA".into(), "stream JA = EA\n".into());
         parts.insert("JB".into(), "stream JB = EB\n".into());
-        parts.insert("J".into(), format!("stream J = join(JA, JB)\n  .on(JA.k == JB.k)\n  .window({}s)\n  .emit(k: JA.k, sa: JA.seq, sb: JB.seq)\n", w));
+        let on = if s.join_on_v { "JA.v == JB.v" } else { "JA.k == JB.k" };
+        parts.insert("J".into(), format!("stream J = join(JA, JB)\n  .on({})\n  .window({}s)\n  .emit(k: JA.k, sa: JA.seq, sb: JB.seq)\n", on, w));
+    }
+    if let Some(t) = s.merge_thr {
+        parts.insert("M".into(), format!("stream M = merge(\n    stream MH = E .where(v > {}),\n    stream ML = A .where(v < 3)\n)\n  .emit(seq: seq, v: v)\n", t));
     }
     // fixed order so that an edit of one stream does not reorder the others
-    let order = ["F", "W", "W2", "Q", "JA", "JB", "J"];
+    let order = ["F", "W", "W2", "Q", "JA", "JB", "J", "M"];
     let mut src = String::new();
     for o in order {
         if let Some(p) = parts.get(o) {
@@ -61,14 +75,15 @@ fn by_stream(out: &[Event], acc: &mut BTreeMap<String, Vec<String>>) {
 
 pub fn run(batch: &str, tape: &mut Tape, rep: &mut Report) {
     // program P
-    let mut p = Spec { filter_thr: None, filter_extra: false, win: None, seq_steps: None, join_win: None };
+    let mut p = Spec { filter_thr: None, filter_extra: false, win: None, seq_steps: None, join_win: None, merge_thr: None, seq_all: false, seq_b_thr: None, join_on_v: false };
     let nfeat = tape.range(1, 4);
     for _ in 0..nfeat {
-        match tape.draw(4) {
+        match tape.draw(5) {
             0 => p.filter_thr = Some(tape.range(1, 3) as i64),
             1 => p.win = Some((tape.range(2, 4), "W")),
-            2 => p.seq_steps = Some(tape.range(2, 3)),
-            _ => p.join_win = Some(tape.range(1, 4)),
+            2 => { p.seq_steps = Some(tape.range(2, 3)); p.seq_all = tape.chance(1, 3); p.seq_b_thr = if tape.chance(1, 2) { Some(tape.range(1, 2) as i64) } else { None }; }
+            3 => { p.join_win = Some(tape.range(1, 4)); p.join_on_v = tape.chance(1, 3); }
+            _ => p.merge_thr = Some(tape.range(1, 2) as i64),
         }
     }
     // edit P -> P'
@@ -76,7 +91,23 @@ pub fn run(batch: &str, tape: &mut Tape, rep: &mut Report) {
     let mut edit = "identity";
     if batch != "identity" {
         for _ in 0..4 {
-            match tape.draw(6) {
+            match tape.draw(10) {
+                6 if p.merge_thr.is_some() => {
+                    q.merge_thr = Some(if p.merge_thr == Some(1) { 3 } else { 1 });
+                    edit = "merge-branch-threshold";
+                }
+                7 if p.seq_steps.is_some() => {
+                    q.seq_all = !p.seq_all;
+                    edit = "sequence-all-toggled";
+                }
+                8 if p.seq_steps.is_some() => {
+                    q.seq_b_thr = match p.seq_b_thr { Some(1) => Some(2), Some(_) => None, None => Some(1) };
+                    edit = "sequence-step-filter";
+                }
+                9 if p.join_win.is_some() => {
+                    q.join_on_v = !p.join_on_v;
+                    edit = "join-condition";
+                }
                 0 if p.filter_thr.is_some() => {
                     q.filter_thr = Some(if p.filter_thr == Some(1) { 3 } else { 1 });
                     edit = "filter-threshold";
@@ -182,7 +213,7 @@ pub fn run(batch: &str, tape: &mut Tape, rep: &mut Report) {
         let ga = oa.get(&name).unwrap_or(&empty);
         let gb = ob.get(&name).unwrap_or(&empty);
         let gc = oc.get(&name).unwrap_or(&empty);
-        let kind = match name.as_str() { "F" => "filter", "W" | "W2" => "window", "Q" => "sequence", "J" => "join", _ => "passthrough" };
+        let kind = match name.as_str() { "F" => "filter", "W" | "W2" => "window", "Q" => "sequence", "J" => "join", "M" => "merge", _ => "passthrough" };
         match (in_p, in_q) {
             (Some(x), Some(y)) if x == y => {
                 if edit == "identity" {
